@@ -76,6 +76,13 @@ pub fn run(ctx: &mut Ctx) {
         }
         // primitives on an explicitly constructed DefaultEngine, each observed in isolation
         let trace_rounds = ISA_TRACE.swap(0, Ordering::SeqCst);
+        {
+            let mut j = crate::json::J::obj();
+            j.set("feature_mask", crate::json::J::s(&format!("avx2={} ssse3={} (CPU: avx2={} ssse3={})", m_avx2, m_ssse3, real_avx2, real_ssse3)));
+            j.set("isa_trace_of_the_rounds", crate::json::J::Num(trace_rounds as f64));
+            j.set("first_case", crate::json::J::strs(&cases.first().map(|c| c.lines.iter().take(6).map(|l| crate::ctx::short(l)).collect::<Vec<_>>()).unwrap_or_default()));
+            ctx.sample(j);
+        }
         let e = DefaultEngine::new();
         let mut x = vec![[7u8; 64]; 3];
         e.mul(&mut x, 12345);
